@@ -30,8 +30,13 @@ def main(argv=None):
     prop, tier = a.prop, a.tier
     C.DEBUG_RUN = bool(a.only or a.to or a.no_replay)
     t0 = time.time()
-    gen_all()
-    hs = [h for h in K.discover(prop) if tier == "thorough" or h.tier == "quick"]
+    # generation + discovery under one lock: concurrent ./check processes regenerate the same files
+    import fcntl
+    os.makedirs(C.BUILD, exist_ok=True)
+    with open(os.path.join(C.BUILD, "gen.lock"), "w") as lk:
+        fcntl.flock(lk, fcntl.LOCK_EX)
+        gen_all()
+        hs = [h for h in K.discover(prop) if tier == "thorough" or h.tier == "quick"]
     if a.only:
         hs = [h for h in hs if any(x in h.name for x in a.only.split(","))]
     if a.to:
@@ -190,6 +195,18 @@ def main(argv=None):
                     f.write(f"// harness {h.full}\n" + hdr)
                 confirmed.append((h, rp, unknown, "not replayed (--no-replay)"))
                 continue
+            if h.kv.get("native"):
+                # families whose counterexamples are reconstructed natively (Kani's concrete playback does not finish on them):
+                # the native generator rebuilds the scenario with the repo's real prover and searches the obligation's small
+                # symbolic space with the repo's real verifier
+                ok, out = native_check(h.kv["native"])
+                with open(rp, "w") as f:
+                    f.write(f"// harness {h.full} ({h.desc})\n// native: {h.kv['native']}\n// replay: cd /verif && ./check --replay {rp}\n" + hdr + "// " + out.strip().replace("\n", "\n// ") + "\n")
+                if ok:
+                    confirmed.append((h, rp, unknown, "reproduced natively (wf-native " + h.kv["native"] + "): " + out.strip()[:200]))
+                else:
+                    not_reproduced.append((h, "native reconstruction found no witness: " + out.strip()[:200]))
+                continue
             tests, pout = K.concrete_playback(h, d)
             if not tests and getattr(h, "hang", False) and h.kv.get("hang_domain"):
                 # Kani emits no playback for an exceeded unwinding bound: reconstruct candidates from the harness's
@@ -289,8 +306,30 @@ def main(argv=None):
     return 0
 
 
+def native_check(argstr):
+    """run `wf-native <args>` built against the current tree; (found, output)"""
+    from .gen import c05 as G5
+    try:
+        binp = G5.build_native()
+    except Exception as e:  # noqa
+        return False, "native generator does not build: " + str(e)[:300]
+    try:
+        p = subprocess.run([binp] + argstr.split(), capture_output=True, text=True, timeout=1800)
+    except subprocess.TimeoutExpired:
+        return False, "native reconstruction timed out"
+    out = p.stdout + p.stderr[-500:]
+    return ("FOUND" in p.stdout), out
+
+
 def do_replay(path):
     """re-run a stored counterexample natively against the current /repo tree"""
+    if path.endswith(".rs"):
+        m0 = re.search(r"^// native: (.*)$", open(path).read(), re.M)
+        if m0:
+            ok, out = native_check(m0.group(1))
+            print(out)
+            print("REPRODUCED" if ok else "NOT REPRODUCED")
+            return 1 if ok else 0
     if path.endswith(".json"):
         from .mirsmt import runner as MR
         return MR.replay_file(path)
